@@ -124,6 +124,23 @@ def check_batch(o):
                         dense64 = _dense(m.precision)
                     elif not np.allclose(dense64, _dense(m.precision), atol=1e-10, rtol=0):
                         bad.append((tag + ": sparse and dense precision differ", {"edges": c["E"]}, None))
+            # the same samples stored in another number type are the same samples
+            forms = [("float32", data.astype(np.float32), 2e-3)]
+            if np.array_equal(data, np.round(data)):
+                forms += [("int64", data.astype(np.int64), 1e-9), ("int32", data.astype(np.int32), 1e-9)]
+            for fname, arr2, tol in forms:
+                tag = "%s graph, %s storage, data stored as %s" % (gname, "sparse" if sparse else "dense", fname)
+                try:
+                    m = GMRFVectorModel(arr2.copy(), g, mode=c["mode"], sparse=sparse, bias=c["bias"])
+                    r = _check_stats(m, o["stats"], o["queries"], tag, tol, nv, c["E"])
+                except Exception as e:
+                    from ..core import from_library
+
+                    if not from_library(e):
+                        raise
+                    r = tag + ": raised %s: %s" % (type(e).__name__, str(e)[:100])
+                if r:
+                    bad.append((r, {"edges": c["E"], "mode": c["mode"], "bias": c["bias"]}, None))
             # the object-backed class (samples and queries are shapes) on the same data
             from menpo.model import GMRFModel
 
